@@ -53,3 +53,32 @@ def dist_get_moment(cx):
     cx.attr('free_symbols', lambda ex, st, o: V('opaque'))
     m = z3.If(dep.t, mixed.t, mom(k.t)); rr = z3.If(dep.t, rest2.t, rest.t)
     cx.ensures(lambda st, r: toreal(r) == c.t * m * rr + (1 - c.t) * POW(d.t, k.t) * rr)
+
+
+# ---------------------------------------------------------------- supports (C05)
+def support_contract(file, cls):
+    @contract(file, f'{cls}.get_support', ['C05'])
+    def c(cx):
+        """every value the guarded assignment can store is denoted by an element of the result: the right-hand side's support, plus the
+        default -- the default may only be dropped when the condition is implied by the loop guard AND the default is the variable itself
+        (whose earlier values are already accounted for by the monotone fixed point). Expressions are compared as objects (symbols)."""
+        implied = cx.bool('condition_implied_by_loop_guard')
+        base = cx.set('rhs_support', DRef('Expr')); d = cx.ref('default', 'Symbol'); var = cx.ref('variable', 'Symbol')
+        if cls == 'PolyAssignment':
+            me = cx.obj(cls, polynomials=V('seq', base.t, ek=DRef('Expr')), default=d, variable=var, condition=cx.ref('condition'))
+        else:
+            me = cx.obj(cls, distribution=cx.ref('distribution'), default=d, variable=var, condition=cx.ref('condition'))
+            cx.call('get_support', lambda ex, st, r, a, kw: base, trusted='Distribution.get_support (contracts/distribution.py)')
+        cx.param(self=me)
+        cx.call('is_implied_by_loop_guard', lambda ex, st, r, a, kw: implied, trusted='Condition.is_implied_by_loop_guard (contracts/condition.py)')
+        y = z3.Const('y', REF)
+
+        def post(st, r):
+            keep_rhs = z3.ForAll([y], z3.Implies(member(base.t, y), member(r.t, y)))
+            return z3.And(keep_rhs, z3.Implies(z3.Not(z3.And(implied.t, d.t == var.t)), member(r.t, d.t)))
+        cx.ensures(post)
+    return c
+
+
+support_contract(F_POLY, 'PolyAssignment')
+support_contract(F_DIST, 'DistAssignment')
